@@ -225,6 +225,14 @@ def targets(tier='quick'):
                 for kind in ('memo', 'attrs', 'alias'):
                     s, i, p = history(kind, cls, meth, attr)
                     T.append(Target('hist/%s[%s.%s,%s]' % (kind, cls, meth, attr), q, s, p, R, PROP, invoke=i, replay=rp))
+    # re-use of one ParameterizedSystem in computations on different time grids (contracts shared with C08)
+    from . import c08
+    RH = c08.hist_registry()
+    for M in (1, 2):
+        for nm, q, inv, post in (('get_propagators', 'system.ParameterizedSystem.get_propagators', c08.invoke_hist_props, c08.post_hist_props),
+                                 ('get_propagator_derivatives', 'system.ParameterizedSystem.get_propagator_derivatives', c08.invoke_hist, c08.post_hist)):
+            T.append(Target('hist/reuse[ParameterizedSystem.%s,M=%d]' % (nm, M), q, c08.scen_hist(M), post, RH, PROP, invoke=inv,
+                            replay=lambda ob: {'func': 'parameterized_system_reuse', 'inputs': {'obligation': ob['name']}}))
     T.append(MemoInventoryTarget())
     from . import c20a
     T += c20a.targets(tier)
